@@ -530,6 +530,7 @@ class FunctionVerifier:
         for g, (gs, init) in c.ghost.items():
             I.env[g] = I.coerce(I.ev_pure(ast.parse(init, mode='eval').body), gs)
         I.old_env = dict(I.env)
+        I.param_alias = set(argnames)
         I.inputs = {a: I.env[a] for a in argnames if is_z3(I.env[a])}
         if c.yields:
             I.out_sort = c.yields
